@@ -271,6 +271,8 @@ func checkC09(w *World, r *Report) {
 	}
 	r.floor("truthiness routines (toBool)", nTruth, 1)
 	checkTruthinessCoverage(w, r)
+	checkLookupCoherence(w, r)
+	checkIfBranchesKept(w, r)
 }
 
 func checkIfNode(w *World, r *Report) {
@@ -954,4 +956,230 @@ func checkTruthinessCoverage(w *World, r *Report) {
 			r.bad("R09.7", funcName(f), construct, w.pos(fd), fmt.Sprintf("the routine%s has no reflect-kind arm for %v: a host-typed empty value of that kind (e.g. []string{}, map[string]string{}, a named bool/string type) falls to the 'everything else is truthy' default, so constructs using this routine disagree with the others about what is falsy", via, missing))
 		}
 	}
+}
+
+// checkLookupCoherence (R09.8): a variable lookup reads the scope maps at the time of the call.
+// If a lookup function can answer from a field of the context other than its maps (a memo of an
+// earlier lookup), every function that writes the context's variable map must refresh that
+// field too — otherwise a binding made by one writer (set, loop variable, the restore after a
+// loop) is not what the next lookup returns.
+func checkLookupCoherence(w *World, r *Report) {
+	ctxT := w.named("RenderContext")
+	st := ctxT.Underlying().(*types.Struct)
+	fieldIsMap := map[string]bool{}
+	for i := 0; i < st.NumFields(); i++ {
+		if _, ok := st.Field(i).Type().Underlying().(*types.Map); ok {
+			fieldIsMap[st.Field(i).Name()] = true
+		}
+	}
+	isCtxMapLookup := func(in ssa.Instruction) bool {
+		lk, ok := in.(*ssa.Lookup)
+		if !ok {
+			return false
+		}
+		_, ok = fieldLoad(lk.X, "RenderContext", "context")
+		return ok
+	}
+	// lookup functions: look a name up in ctx.context and return a value
+	memo := map[string]string{} // field -> where it is returned
+	nLookupFns := 0
+	for _, fn := range w.pkgFuncs() {
+		has := false
+		instrsOf(fn, func(in ssa.Instruction) {
+			if isCtxMapLookup(in) {
+				has = true
+			}
+		})
+		if !has || fn.Signature.Results().Len() == 0 {
+			continue
+		}
+		if _, isIface := fn.Signature.Results().At(0).Type().Underlying().(*types.Interface); !isIface {
+			continue
+		}
+		nLookupFns++
+		instrsOf(fn, func(in ssa.Instruction) {
+			ret, ok := in.(*ssa.Return)
+			if !ok {
+				return
+			}
+			res := retResults(ret)
+			if len(res) == 0 {
+				return
+			}
+			seen := map[ssa.Value]bool{}
+			var walk func(v ssa.Value)
+			walk = func(v ssa.Value) {
+				if seen[v] {
+					return
+				}
+				seen[v] = true
+				switch x := v.(type) {
+				case *ssa.Phi:
+					for _, e := range x.Edges {
+						walk(e)
+					}
+				case *ssa.UnOp:
+					if fa, ok := x.X.(*ssa.FieldAddr); ok {
+						if tn, f := fieldOfAddr(fa); tn == "RenderContext" && !fieldIsMap[f] {
+							if _, isIface := x.Type().Underlying().(*types.Interface); isIface {
+								memo[f] = ssaName(fn) + " " + w.posOf(ret.Pos())
+							}
+						}
+					}
+				}
+			}
+			walk(res[0])
+		})
+	}
+	r.floor("functions looking a variable up in ctx.context", nLookupFns, 1)
+	if len(memo) == 0 {
+		r.ok("R09.8", "(*RenderContext)", "variable lookups answer from the scope maps only", "-", "no lookup function returns a value kept in a non-map field of the context", false)
+		return
+	}
+	storesField := func(fn *ssa.Function, field string) bool {
+		var visit func(f *ssa.Function, depth int) bool
+		seen := map[*ssa.Function]bool{}
+		visit = func(f *ssa.Function, depth int) bool {
+			if seen[f] || depth > 2 {
+				return false
+			}
+			seen[f] = true
+			found := false
+			instrsOf(f, func(in ssa.Instruction) {
+				switch x := in.(type) {
+				case *ssa.Store:
+					if fa, ok := x.Addr.(*ssa.FieldAddr); ok {
+						if tn, fl := fieldOfAddr(fa); tn == "RenderContext" && fl == field {
+							found = true
+						}
+					}
+				case *ssa.Call:
+					if g := x.Call.StaticCallee(); g != nil && g.Pkg != nil && g.Pkg.Pkg.Path() == twigPath && visit(g, depth+1) {
+						found = true
+					}
+				}
+			})
+			return found
+		}
+		return visit(fn, 0)
+	}
+	for _, fn := range w.pkgFuncs() {
+		writes := false
+		var at ssa.Instruction
+		instrsOf(fn, func(in ssa.Instruction) {
+			switch x := in.(type) {
+			case *ssa.MapUpdate:
+				if _, ok := fieldLoad(x.Map, "RenderContext", "context"); ok {
+					writes, at = true, in
+				}
+			case *ssa.Call:
+				if b, ok := x.Call.Value.(*ssa.Builtin); ok && b.Name() == "delete" {
+					if _, ok := fieldLoad(x.Call.Args[0], "RenderContext", "context"); ok {
+						writes, at = true, in
+					}
+				}
+			}
+		})
+		if !writes {
+			continue
+		}
+		for f, where := range memo {
+			construct := "writer of ctx.context refreshes the lookup memo " + f
+			if storesField(fn, f) {
+				r.ok("R09.8", ssaName(fn), construct, w.posOf(at.Pos()), "the memo field is assigned where the variable map is written", true)
+			} else {
+				r.bad("R09.8", ssaName(fn), construct, w.posOf(at.Pos()), fmt.Sprintf("lookups can be answered from RenderContext.%s (%s), but this function changes the variable map without touching that field: the next lookup of the name returns the old binding (a loop variable after endfor, an outer counter after an inner loop, a value before a later set)", f, where))
+			}
+		}
+	}
+}
+
+// checkIfBranchesKept (R09.9): the condition and body lists of an if node are the lists the
+// parser appended to while reading the tags: every element is a parse result, none is re-collected
+// from another list (a second pass that copies — and therefore can drop or reorder — branches).
+// A dropped branch with a truthy condition lets a later elseif/else render.
+func checkIfBranchesKept(w *World, r *Report) {
+	n := 0
+	var recollected func(v ssa.Value, seen map[ssa.Value]bool, depth int) string
+	recollected = func(v ssa.Value, seen map[ssa.Value]bool, depth int) string {
+		if seen[v] || depth > 12 {
+			return ""
+		}
+		seen[v] = true
+		switch x := v.(type) {
+		case *ssa.Phi:
+			for _, e := range x.Edges {
+				if why := recollected(e, seen, depth+1); why != "" {
+					return why
+				}
+			}
+		case *ssa.UnOp:
+			if al, ok := x.X.(*ssa.Alloc); ok && al.Referrers() != nil {
+				for _, ref := range *al.Referrers() {
+					if st, ok := ref.(*ssa.Store); ok && st.Addr == al {
+						if why := recollected(st.Val, seen, depth+1); why != "" {
+							return why
+						}
+					}
+				}
+			}
+		case *ssa.Call:
+			b, ok := x.Call.Value.(*ssa.Builtin)
+			if !ok || b.Name() != "append" || len(x.Call.Args) != 2 {
+				return ""
+			}
+			if why := recollected(x.Call.Args[0], seen, depth+1); why != "" {
+				return why
+			}
+			for _, el := range variadicElems(x.Call.Args[1]) {
+				e := unspill(el)
+				if u, ok := e.(*ssa.UnOp); ok {
+					if _, isIdx := u.X.(*ssa.IndexAddr); isIdx {
+						return "an element copied from another list"
+					}
+				}
+				if ex, ok := e.(*ssa.Extract); ok {
+					if _, isNext := ex.Tuple.(*ssa.Next); isNext {
+						return "an element of a list that is ranged over"
+					}
+				}
+			}
+		}
+		return ""
+	}
+	for _, fd := range w.sortedDecls() {
+		if !w.parserSide(fd) {
+			continue
+		}
+		fn := w.ssaFunc(w.Info.Defs[fd.Name].(*types.Func))
+		instrsOf(fn, func(in ssa.Instruction) {
+			var vals map[string]ssa.Value
+			switch x := in.(type) {
+			case *ssa.Store:
+				fa, ok := x.Addr.(*ssa.FieldAddr)
+				if !ok {
+					return
+				}
+				if tn, f := fieldOfAddr(fa); tn == "IfNode" && (f == "conditions" || f == "bodies") {
+					vals = map[string]ssa.Value{f: x.Val}
+				}
+			case *ssa.Call:
+				g := x.Call.StaticCallee()
+				if g == nil || g.Signature.Results().Len() != 1 || !isNamed(g.Signature.Results().At(0).Type(), twigPath, "IfNode") || len(x.Call.Args) < 2 {
+					return
+				}
+				vals = map[string]ssa.Value{"conditions": x.Call.Args[0], "bodies": x.Call.Args[1]}
+			}
+			for f, v := range vals {
+				n++
+				construct := "IfNode." + f + " is the list the parser appended its parse results to"
+				if why := recollected(v, map[ssa.Value]bool{}, 0); why != "" {
+					r.bad("R09.9", ssaName(fn), construct, w.posOf(in.Pos()), "the list handed to the node contains "+why+": branches are re-collected after parsing and can be dropped or reordered (an empty branch with a truthy condition must still stop the chain)")
+				} else {
+					r.ok("R09.9", ssaName(fn), construct, w.posOf(in.Pos()), "built only from direct appends of parse results", true)
+				}
+			}
+		})
+	}
+	r.floor("constructions of IfNode condition/body lists in the parser", n, 2)
 }
